@@ -209,7 +209,8 @@ def _hard_soft(dimacs):
 def run_impl(item):
     """Worker: ground, build the k-best CNF, run kbest in several modes with recording wrappers
     (no /repo change: the wrappers are installed in this process only)."""
-    prog, scratch = item
+    prog, scratch, solver_kind, modes, do_task = item
+    import random
     import tempfile
     tempfile.tempdir = scratch
     import problog.kbest as kb
@@ -286,12 +287,33 @@ def run_impl(item):
                           "improvement": None if self.improvement is None else float(self.improvement)})
             return sol
 
+    srng = random.Random(src)
+
+    class DpllSolver(mx.MaxSATSolver):
+        """Harness-side stand-in: returns SOME model of the hard clauses (random polarities, no
+        optimisation at all) or raises UnsatisfiableError.  Exercises the claim that optimality of
+        the MaxSAT answer is irrelevant for soundness, at a fraction of maxsatz's start-up cost."""
+        def evaluate(self, formula, **kwargs):
+            inputf = self.prepare_input(formula, **kwargs)
+            nv, nc, top, hard, soft = _hard_soft(inputf)
+            model = dpll_model(hard, nv, srng)
+            if model is None:
+                calls.append({"dimacs": inputf, "answer": None, "solver": "dpll"})
+                raise mx.UnsatisfiableError()
+            calls.append({"dimacs": inputf, "answer": list(model), "solver": "dpll"})
+            return model
+
     old_solver, old_border = kb.get_solver, kb.Border
-    kb.get_solver = lambda prefer=None: RecSolver(["maxsatz"])
+    if solver_kind == "dpll":
+        kb.get_solver = lambda prefer=None: DpllSolver(["none"])
+    else:
+        kb.get_solver = lambda prefer=None: RecSolver(["maxsatz"])
     kb.Border = RecBorder
     try:
         for mode, kwargs in (("default", {}), ("conv0", {"convergence": 0.0}), ("wide", {"convergence": 0.3}),
                              ("lower", {"lower_only": True}), ("explain", None)):
+            if mode not in modes:
+                continue
             del calls[:]
             del trace[:]
             del created[:]
@@ -315,6 +337,8 @@ def run_impl(item):
     finally:
         kb.get_solver, kb.Border = old_solver, old_border
     # the explain task itself (CLI entry point) on the same program
+    if not do_task:
+        return out
     try:
         from problog.tasks import explain as ex
         path = os.path.join(scratch, "p%d_%d.pl" % (os.getpid(), abs(hash(src)) % 10 ** 9))
@@ -353,6 +377,67 @@ def answer_is_model(call):
         if not any(l in s for l in c):
             return False, (nv, top, hard, soft)
     return True, (nv, top, hard, soft)
+
+
+def dpll_model(hard, nv, rng):
+    """Some total model of the hard clauses (list of signed ints over 1..nv) or None."""
+    import sys
+    sys.setrecursionlimit(max(sys.getrecursionlimit(), 10000))
+    assign = {}
+
+    def propagate(cls, asg):
+        changed = True
+        while changed:
+            changed = False
+            new = []
+            for c in cls:
+                sat = False
+                rest = []
+                for l in c:
+                    v = asg.get(abs(l))
+                    if v is None:
+                        rest.append(l)
+                    elif (l > 0) == v:
+                        sat = True
+                        break
+                if sat:
+                    continue
+                if not rest:
+                    return None
+                if len(rest) == 1:
+                    asg[abs(rest[0])] = rest[0] > 0
+                    changed = True
+                else:
+                    new.append(rest)
+            cls = new
+        return cls
+
+    def solve(cls, asg):
+        cls = propagate(cls, asg)
+        if cls is None:
+            return None
+        if not cls:
+            return asg
+        v = abs(cls[0][0])
+        # odd variables are "possibly true", even ones "certainly true": prefer unknown
+        pref = (v % 2 == 1) if rng.random() < 0.7 else (rng.random() < 0.5)
+        for val in (pref, not pref):
+            a2 = dict(asg)
+            a2[v] = val
+            r = solve(cls, a2)
+            if r is not None:
+                return r
+        return None
+    res = solve([list(c) for c in hard], assign)
+    if res is None:
+        return None
+    out = []
+    for v in range(1, nv + 1):
+        val = res.get(v)
+        if val is None:
+            val = (v % 2 == 1) if rng.random() < 0.7 else (rng.random() < 0.5)
+        out.append(v if val else -v)
+    return out
 
 
 def brute_unsat(hard, nv, limit=22):
@@ -446,6 +531,13 @@ def judge_program(ctx, prog, obs, exact):
             m = re.match(r"^(.*?) :- (.*)\.\s+% P=([0-9.eE+-]+)$", line)
             if m:
                 per.setdefault(m.group(1), []).append(float(m.group(3)))
+                continue
+            m = re.match(r"^(.*?) :- true\.$", line)     # deterministically true query: one proof of probability 1
+            if m:
+                per.setdefault(m.group(1), []).append(1.0)
+        groups = {}
+        for name, i in obs["queries"]:
+            groups.setdefault(i, []).append(name)
         for q, ex in exact.items():
             e = float(ex)
             v = results.get(q)
@@ -456,10 +548,20 @@ def judge_program(ctx, prog, obs, exact):
             # printed with %.8g: allow 1e-8 relative per proof on top of the tolerance
             slack = TOL + 1e-7 * max(1, len(per.get(q, [])))
             ctx.count("explain_queries")
-            if isinstance(v, list):
-                if not (v[0] - TOL <= e <= v[1] + TOL) or abs(s - v[0]) > slack:
-                    bad.append(("%s: %s interval %r / proofs sum %r vs exact %r" % (src_name, q, v, s, e), "explain-sum-wrong"))
-            elif abs(v - e) > TOL or abs(s - e) > slack:
+            grp = [g for g in groups.values() if q in g][0] if any(q in g for g in groups.values()) else [q]
+            okv = (v[0] - TOL <= e <= v[1] + TOL) if isinstance(v, list) else abs(v - e) <= TOL
+            target = v[0] if isinstance(v, list) else e
+            if okv and abs(s - target) <= slack:
+                continue
+            # narrow class: several queries are the same ground node; evaluate() looks the name up by node
+            # and labels every proof with the first of them (that one gets k copies, the others none)
+            gsum = sum(sum(per.get(x, [])) for x in grp)
+            if okv and len(grp) > 1 and abs(gsum - len(grp) * target) <= slack * len(grp) \
+                    and all(abs(sum(per.get(x, []))) <= slack for x in grp[1:]):
+                bad.append(("%s: queries %s are the same ground node; all %d copies of the proofs are listed under %s "
+                            "(sums to %r, exact %r) and none under the others" % (src_name, grp, len(grp), grp[0], gsum, e),
+                            "explain-proofs-mislabelled-when-queries-share-a-node"))
+            else:
                 bad.append(("%s: proofs of %s sum to %r, result %r, exact %r" % (src_name, q, s, v, e), "explain-sum-wrong"))
     return bad
 
@@ -606,9 +708,10 @@ def coq_cases(obs, max_steps=40):
         return cases
     steps = rec["trace"][:max_steps]
     # (c)+(d) every solver call: encode / header / soft clauses / from_partial
-    for t in steps:
-        if t["call"] is None:
-            continue
+    enc_steps = [t for t in steps if t["call"] is not None]
+    if len(enc_steps) > 4:
+        enc_steps = enc_steps[:2] + [enc_steps[len(enc_steps) // 2], enc_steps[-1]]
+    for t in enc_steps:
         c = rec["calls"][t["call"]]
         nv, nc, top, hard, soft = _hard_soft(c["dimacs"])
         seen_w = sorted(set(x for x, _ in soft))
@@ -701,8 +804,8 @@ def usable(prog):
     return all(q in base or q in heads for q in prog["queries"]) and stratified(prog["rules"])
 
 
-def classes_of(prog, scratch):
-    obs = run_impl((prog, scratch))
+def classes_of(prog, scratch, solver_kind, modes):
+    obs = run_impl((prog, scratch, solver_kind, modes, False))
     if "ground_error" in obs or "kbest_error" in obs:
         return set()
     class _C:  # counting stub
@@ -726,43 +829,59 @@ def run(ctx):
         "annotated-disjunction constraints; with ADs it is an explicit hypothesis of the bound theorems (tie covers ADs)",
     ]
     ctx.prove("C23/Props.v")
+    ctx.log("proofs checked")
 
+    ALL_MODES = ("default", "conv0", "wide", "lower", "explain")
+    REAL_MODES = ("default", "wide", "explain") if ctx.tier == "quick" else ALL_MODES
+    plan = []   # (prog, solver_kind, modes, do_task)
     if getattr(ctx, "replay", None):
-        progs = [ctx.replay["replay"]["program"]]
-        for p in progs:
-            p["facts"] = [(a, Fraction(b)) for a, b in p["facts"]]
-            p["ads"] = [[(a, Fraction(b)) for a, b in ad] for ad in p["ads"]]
-            p["rules"] = [(h, [(a, bool(ng)) for a, ng in body]) for h, body in p["rules"]]
+        p = ctx.replay["replay"]["program"]
+        p = {"facts": [(a_, Fraction(b_)) for a_, b_ in p["facts"]],
+             "ads": [[(a_, Fraction(b_)) for a_, b_ in ad] for ad in p["ads"]],
+             "rules": [(h, [(a_, bool(ng)) for a_, ng in body]) for h, body in p["rules"]],
+             "queries": list(p["queries"])}
+        plan.append((p, ctx.replay["replay"].get("solver", "maxsatz"), ALL_MODES, True))
     else:
-        nprog = ctx.n(48, 900)
-        progs = []
+        nreal = ctx.n(8, 220)
+        ndpll = ctx.n(40, 1500)
         seen = set()
-        while len(progs) < nprog:
+        while len(plan) < nreal + ndpll:
             p = gen_program(ctx.rng)
             t = program_text(p)
             if t in seen:
                 continue
             seen.add(t)
-            progs.append(p)
+            k = len(plan)
+            if k < nreal:
+                # maxsatz start-up dominates (1-3 s per call): keep the real-solver programs smaller in quick
+                if ctx.tier == "quick" and len(p["facts"]) + len(p["ads"]) > 5:
+                    seen.discard(t)
+                    continue
+                plan.append((p, "maxsatz", REAL_MODES, k % 3 == 0))
+            else:
+                plan.append((p, "dpll", ALL_MODES, k % 4 == 0))
     os.makedirs(ctx.scratch, exist_ok=True)
-    obs_all = pl.pmap(run_impl, [(p, ctx.scratch) for p in progs], jobs=ctx.n(8, 14), chunksize=2)
+    ctx.log("running %d programs (%d with maxsatz)" % (len(plan), sum(1 for x in plan if x[1] == "maxsatz")))
+    obs_all = pl.pmap(run_impl, [(p, ctx.scratch, sk, md, dt) for p, sk, md, dt in plan], jobs=ctx.n(12, 14), chunksize=1)
+    ctx.log("implementation runs done")
 
     cases, metas = [], []
-    ncoq = ctx.n(24, 200)
-    for k, (prog, obs) in enumerate(zip(progs, obs_all)):
+    ncoq_real, ncoq_dpll = ctx.n(8, 120), ctx.n(10, 200)
+    nreal_seen = ndpll_seen = 0
+    for k, ((prog, sk, md, dt), obs) in enumerate(zip(plan, obs_all)):
         if "ground_error" in obs:
             ctx.count("skipped_grounding_error:" + obs["ground_error"])
             continue
         if "kbest_error" in obs:
             ctx.violation("KBestFormula.create_from raised %s on\n%s" % (obs["kbest_error"], obs["src"]),
-                          {"program": jsonable(prog), "src": obs["src"]}, klass="kbest-create-raises")
+                          {"program": jsonable(prog), "src": obs["src"], "solver": sk}, klass="kbest-create-raises")
             continue
         exact = exact_probs(prog)
         bad = judge_program(ctx, prog, obs, exact)
         nsol = max([len([t for t in r.get("trace", []) if t["solution"] is not None]) for r in obs["modes"].values()] + [0])
-        ctx.case(obs["src"], nsol >= 2, sample={"program": obs["src"], "exact": {q: float(v) for q, v in exact.items()},
-                                                "kbest": obs["modes"].get("default", {}).get("result")})
-        ctx.count("programs")
+        ctx.case((sk, obs["src"]), nsol >= 2, sample={"program": obs["src"], "solver": sk, "exact": {q: float(v) for q, v in exact.items()},
+                                                       "kbest": obs["modes"].get("default", {}).get("result")})
+        ctx.count("programs_" + sk)
         ctx.count("solutions_max_%s" % ("0-1" if nsol < 2 else "2-4" if nsol < 5 else "5-9" if nsol < 10 else "10+"))
         if obs["adgroups"]:
             ctx.count("programs_with_AD")
@@ -771,20 +890,29 @@ def run(ctx):
         if bad:
             klasses = sorted(set(kk for _, kk in bad))
             small = prog
-            try:
-                small = shrink_program(prog, lambda c: bool(classes_of(c, ctx.scratch) & set(klasses)))
-            except Exception:
-                pass
+            if sk == "dpll":   # shrinking with maxsatz costs minutes; only shrink the fast runs
+                try:
+                    small = shrink_program(prog, lambda c: bool(classes_of(c, ctx.scratch, sk, md) & set(klasses)))
+                except Exception:
+                    pass
             for what, kk in bad[:3]:
                 ctx.violation("%s\nprogram:\n%s\nminimised:\n%s" % (what, obs["src"], program_text(small)),
-                              {"program": jsonable(small), "src": program_text(small), "original": obs["src"]}, klass=kk)
-        if k < ncoq or obs["adgroups"] and k < 2 * ncoq:
+                              {"program": jsonable(small), "src": program_text(small), "original": obs["src"], "solver": sk}, klass=kk)
+        take = False
+        if sk == "maxsatz" and nreal_seen < ncoq_real:
+            nreal_seen += 1
+            take = True
+        elif sk == "dpll" and ndpll_seen < ncoq_dpll:
+            ndpll_seen += 1
+            take = True
+        if take:
             for tag, term in coq_cases(obs):
                 cases.append(term)
-                metas.append((tag, obs["src"]))
+                metas.append((tag, sk, obs["src"]))
                 ctx.count("tie_" + tag)
+    ctx.log("judged; %d Coq tie cases" % len(cases))
     try:
-        failing = ctx.coq_failing(HEADER, cases, name="c23", shard=60)
+        failing = ctx.coq_failing(HEADER, cases, name="c23", shard=40)
     except RuntimeError as e:
         ctx.broken.append("correspondence:C23 model cases do not evaluate")
         ctx.notes.append(str(e))
@@ -792,7 +920,7 @@ def run(ctx):
     ctx.cov["model_vs_impl_agree"] = len(cases) - len(failing)
     ctx.cov["model_vs_impl_cases"] = len(cases)
     for i in failing[:5]:
-        ctx.broken.append("correspondence:%s (model vs implementation) on program %r" % (metas[i][0], metas[i][1]))
+        ctx.broken.append("correspondence:%s (model vs implementation, solver %s) on program %r" % metas[i])
 
 
 def jsonable(prog):
